@@ -99,6 +99,18 @@ struct ParameterTraits<cntgs::AlignAs<T, Alignment>>
         return address + VALUE_BYTES;
     }
 
+    // Moves the object to `address`, which may overlap the object itself (but nothing else that is alive).
+    template <std::size_t PreviousTrailingAlignment>
+    static std::byte* relocate(ReferenceType source, std::byte* address) noexcept(std::is_nothrow_move_constructible_v<T>)
+    {
+        address = detail::align_if<(PreviousTrailingAlignment < ALIGNMENT), ALIGNMENT>(address);
+        assert(detail::is_aligned(address, ALIGNMENT));
+        T temporary(std::move(source));
+        source.~T();
+        detail::construct_at(reinterpret_cast<T*>(address), std::move(temporary));
+        return address + VALUE_BYTES;
+    }
+
     static constexpr TrailingAlignmentResult trailing_alignment(std::size_t offset, std::size_t alignment) noexcept
     {
         std::size_t new_offset{};
@@ -298,6 +310,23 @@ struct BaseContiguousParameterTraits
     static constexpr void destroy(const cntgs::Span<T>& value) noexcept
     {
         std::destroy(Self::begin(value), std::end(value));
+    }
+
+    // Moves the objects one by one to `address`, which may overlap the span itself (but nothing else that is alive).
+    template <std::size_t PreviousTrailingAlignment>
+    static std::byte* relocate(const cntgs::Span<T>& source,
+                               std::byte* address) noexcept(std::is_nothrow_move_constructible_v<T>)
+    {
+        auto* target = reinterpret_cast<T*>(detail::align_if<(PreviousTrailingAlignment < Alignment), Alignment>(address));
+        assert(detail::is_aligned(target, Alignment));
+        for (auto& object : source)
+        {
+            T temporary(std::move(object));
+            object.~T();
+            detail::construct_at(target, std::move(temporary));
+            ++target;
+        }
+        return reinterpret_cast<std::byte*>(target);
     }
 
     static void copy(const cntgs::Span<std::add_const_t<T>>& source,
